@@ -39,6 +39,45 @@ class Runaway(Exception):
     code under test, reported by the caller as a violation."""
 
 
+class ExpDraw(float):
+    """A waiting time handed out by the scripted expovariate during a decision-tree walk.  The walk gives every
+    waiting time the same nominal value, which is harmless as long as a waiting time is only ADDED to the clock
+    (the sum is a plain float).  Code that lets waiting times race against each other (first-reaction method,
+    `delay < duration`) compares two of them: that is not enumerable as a finite decision tree, so it is refused
+    rather than silently mis-modelled."""
+    __slots__ = ()
+
+    def _cmp(self, other):
+        if isinstance(other, ExpDraw):
+            raise Unmodelled("two waiting-time draws are compared with each other (a race of exponential clocks)")
+
+    def __lt__(self, other):
+        self._cmp(other)
+        return float.__lt__(self, other)
+
+    def __le__(self, other):
+        self._cmp(other)
+        return float.__le__(self, other)
+
+    def __gt__(self, other):
+        self._cmp(other)
+        return float.__gt__(self, other)
+
+    def __ge__(self, other):
+        self._cmp(other)
+        return float.__ge__(self, other)
+
+    def __eq__(self, other):
+        self._cmp(other)
+        return float.__eq__(self, other)
+
+    def __ne__(self, other):
+        self._cmp(other)
+        return float.__ne__(self, other)
+
+    __hash__ = float.__hash__
+
+
 class SymU(object):
     """A symbolic uniform(0,1) draw (affine image a*U+b, a>0).  Comparisons
     against a number split the current interval of U and take the scripted
@@ -193,8 +232,8 @@ class Source(object):
             raise Runaway("more than %d waiting-time draws in one run" % self.max_exp)
         if rate == 0.0:
             raise ZeroDivisionError("float division by zero")  # what random.expovariate does
-        d = 1.0 if self.delays is None else self.delays(k, rate)
-        self.tape.append(("exp", rate, d, None))
+        d = ExpDraw(1.0) if self.delays is None else self.delays(k, rate)
+        self.tape.append(("exp", rate, float(d), None))
         return d
 
     def choice(self, seq):
